@@ -1,7 +1,7 @@
 """C11 -- batch results align with inputs and do not depend on batch history."""
 import ast
 
-from ..core import AnalysisError, src, qualname_of, src_ref
+from ..core import AnalysisError, src, qualname_of, src_ref, enclosing_function
 from ..pysym import SymExec, show, subterms, all_calls, terms_of
 from ..rules_pyx import N, C, A
 from .. import logic
@@ -228,7 +228,9 @@ def r_state(repo, rep, R='R11.5'):
             for t in (n.targets if isinstance(n, ast.Assign) else [n.target]):
                 if isinstance(t, (ast.Subscript, ast.Attribute)) and isinstance(t.value, ast.Name) and t.value.id not in assigned_in and t.value.id not in targets:
                     outer_mut.add('%s[...] =' % t.value.id)
-    rep.check(outer_mut <= {'all_results.append'}, R, w, 'run:loop:outer-state', 'inside the loop only the result list is modified among the objects created outside it',
+    # the result list: the name run() returns (created empty before the loop)
+    returned = {src(n.value) for n in ast.walk(run) if isinstance(n, ast.Return) and isinstance(n.value, ast.Name) and enclosing_function(n) is run}
+    rep.check(outer_mut <= {'%s.append' % r_ for r_ in returned}, R, w, 'run:loop:outer-state', 'inside the loop only the result list is modified among the objects created outside it',
               'the loop also modifies %s' % sorted(outer_mut - {'all_results.append'}))
 
 
